@@ -439,6 +439,24 @@ Fixpoint record_alloc_infos (k : N) (infos : list alloc_info) (m : list (N * all
   | i :: r => record_alloc_infos (k + 1) r (if tallies_is_empty i then m else (k, i) :: m)
   end.
 
+(** One iteration of the [while] loop as far as the allocation records are
+    concerned: [(tune, infos of the round's raw samples)].  A tuning round first
+    discards everything recorded so far ([SampleCollection::clear]: the time
+    samples *and* [alloc_info_by_sample]).  State: number of stored time
+    samples, the map. *)
+Definition record_alloc_round (st : nat * list (N * alloc_info)) (round : bool * list alloc_info)
+  : nat * list (N * alloc_info) :=
+  let st0 := if fst round then (0%nat, []) else st in
+  ((fst st0 + length (snd round))%nat, record_alloc_infos (N.of_nat (fst st0)) (snd round) (snd st0)).
+
+Definition record_alloc_rounds (rounds : list (bool * list alloc_info)) : nat * list (N * alloc_info) :=
+  fold_left record_alloc_round rounds (0%nat, []).
+
+(** The infos of the samples that are still stored after these rounds. *)
+Definition kept_infos (rounds : list (bool * list alloc_info)) : list alloc_info :=
+  fold_left (fun (kept : list alloc_info) (round : bool * list alloc_info) =>
+               (if fst round then [] else kept) ++ snd round) rounds [].
+
 Fixpoint list_eqb (l1 l2 : list N) : bool :=
   match l1, l2 with
   | [], [] => true
